@@ -1,10 +1,10 @@
 SPECIFICATION Spec
 CONSTANTS
   Cfgs <- CfgsTc
-  Steps = {1, 2}
-  MaxEv = 7
+  Steps = {1}
+  MaxEv = 8
 INVARIANTS TypeOK ExpiryExact ReadIdleOnTime PingOnTime RespHdrOnTime IdleOnTime ShutOnTime WriteOnTime
   HealthCheckAlive NoPingWhenDisabled AtMostOnePingInFlight PingsSpaced IdleOnlyWhenNoStreams
-  GoAwayBounded SettingsBounded PrefaceBounded ClosedIsQuiet
+  GoAwayBounded SettingsBounded PrefaceBounded ClosedIsQuiet NoLateHealthCheck
 PROPERTIES QuietStep ClosedForever
 CHECK_DEADLOCK FALSE
